@@ -11,11 +11,12 @@ From Qv Require Import Common.Bytes Gen.GenNetio Gen.GenSession Model.NetRead Mo
     - it is refused for size only if the counter exceeds the limit, and the counter never exceeds the transmitted octets:
       a message whose transmitted size is within the limit is never refused for size;
     - it is refused as looping only when MAXHOPS+1 Received: lines were seen, all in the header; a message that is
-      handed over has at most MAXHOPS of them in its header (lines of the body are not counted). *)
+      handed over has at most MAXHOPS of them in its header (lines of the body are not counted).
+    The Date / From / Message-Id fields added on the submission port ([queued], property C02) are not counted. *)
 Theorem C15_data_limits : forall fuel o dc r trace d r', rstate_ok r -> data_loop fuel o dc r trace = (d, r') ->
   match d with
   | D_eod msg sz seen =>
-      msg = trace ++ stored seen
+      msg = trace ++ queued (par_of dc) seen        (* = trace ++ stored seen outside submission mode: queued_off *)
       /\ total r = wire seen ++ [DOT; CR; LF] ++ total r' /\ Forall data_line seen
       /\ sz = szof seen /\ (N.of_nat (length (stored seen)) <= sz <= maxbytes o)%N
       /\ count_rcv (hdr_part seen) <= MAXHOPS
@@ -63,7 +64,8 @@ Print Assumptions C15_constants.
 
 Example C15_nonvacuous :
   let o := {| o_helo := fun _ => true; o_addr := fun _ _ => AP_nobracket; o_ext := fun _ => Ext_ok 0 0 None; o_relay := 0%Z;
-              o_mx := fun _ => 0; o_qq := fun _ => QQ_ok; o_databytes := 0%N; o_liphost := []; o_check2822 := false; o_authperm := false; o_auth := fun _ => Auth_multi; o_trace := fun _ _ _ _ _ _ => [] |} in
+              o_mx := fun _ => 0; o_qq := fun _ => QQ_ok; o_databytes := 0%N; o_liphost := []; o_check2822 := false; o_authperm := false; o_auth := fun _ => Auth_multi; o_trace := fun _ _ _ _ _ _ => [];
+              o_submission := false; o_subm_date := []; o_subm_stamp := []; o_msgidhost := [] |} in
   let bad := [70; 79; 79; 13; 10]%N in
   run_session o [bad; bad; bad; bad; bad; bad; bad; bad]
   = [Reply 220; Note NBad; Reply 500; Note NBad; Reply 500; Note NBad; Reply 500; Note NBad; Reply 500;
